@@ -50,7 +50,8 @@ package p2p
 //@   ensures [C18] first: len(result) >= 1 ==> reqOrigin(result[0]) == from
 //@   ensures [C18] chained: forall i int :: 0 <= i && i + 1 < len(result) ==> reqOrigin(result[i+1]) == reqOrigin(result[i]) + result[i].Amount
 //@   ensures [C18] covers: len(result) >= 1 ==> reqOrigin(result[len(result)-1]) + result[len(result)-1].Amount == from + amount
-//@   ensures [C18] sizes: forall i int :: 0 <= i && i < len(result) ==> 1 <= result[i].Amount && result[i].Amount <= headersPerPeer && reqIsOrigin(result[i])
+//@   ensures [C18] within-total: forall i int :: 0 <= i && i < len(result) ==> result[i].Amount <= amount
+//@   ensures [C18] sizes: forall i int :: 0 <= i && i < len(result) ==> result[i] != nil && 1 <= result[i].Amount && result[i].Amount <= headersPerPeer && reqIsOrigin(result[i])
 //@ loop 0:
 //@   invariant slice: amount <= old(amount) && off(requests) == 0 && fresh(arr(requests))
 //@   invariant nonempty: len(requests) >= 1 ==> old(amount) > 0
@@ -61,6 +62,7 @@ package p2p
 //@   invariant frame: unchanged("elems(int)")
 //@   invariant first: len(requests) >= 1 ==> reqOrigin(requests[0]) == old(from)
 //@   invariant chained: forall i int :: 0 <= i && i + 1 < len(requests) ==> reqOrigin(requests[i+1]) == reqOrigin(requests[i]) + requests[i].Amount
+//@   invariant within-total: forall i int :: 0 <= i && i < len(requests) ==> requests[i].Amount <= old(amount)
 //@   invariant sizes: forall i int :: 0 <= i && i < len(requests) ==> 1 <= requests[i].Amount && requests[i].Amount <= headersPerPeer && reqIsOrigin(requests[i])
 //@   decreases amount
 
@@ -141,3 +143,36 @@ package p2p
 //@   ensures [C13] zero-height: height == 0 ==> result1 != nil
 //@   ensures [C13] valid: result1 == nil ==> validated(result0) && !result0.IsZero() && chainOK(ex.Params.chainID, result0.ChainID())
 //@   ensures [C13] zero-on-error: result1 != nil ==> result0.IsZero()
+
+// ---- session: chunks of a range request (C05, C18)
+
+//@ ghost var sessFrom uint64 -- first height of the range the session was asked for (ghost parameter)
+//@ ghost var sessAmount uint64 -- number of headers the session was asked for (ghost parameter)
+
+//@ pure verifiedRun(t, c) = forall k int :: 0 <= k && k < len(c) ==> passedVerify(ite(k == 0, t, c[k-1]), c[k]) && c[k].Height() == c[0].Height() + k
+
+//@ func (*session).verify(s, headers)
+//@   props C05
+//@   modifies $now, header.VerifyError.SoftFailure
+//@   ensures [C05] prefix: len(result0) <= len(headers) && forall k int :: 0 <= k && k < len(result0) ==> result0[k] == old(headers[k])
+//@   ensures [C05] verified: !s.from.IsZero() ==> verifiedRun(s.from, result0)
+//@   ensures [C05] nil-means-whole: !s.from.IsZero() && result1 == nil ==> len(result0) == len(headers) && len(headers) > 0
+//@   ensures [C05] unvalidated-session: s.from.IsZero() ==> result1 == nil && len(result0) == len(headers)
+
+//@ func (*session).processResponses(s, responses)
+//@   props C05
+//@   modifies $now, header.VerifyError.SoftFailure
+//@   ensures [C05] chunk: result1 == nil ==> len(result0) >= 1 && len(result0) <= len(responses) && (forall k int :: 0 <= k && k < len(result0) ==> validated(result0[k]) && !result0[k].IsZero()) && (!s.from.IsZero() ==> verifiedRun(s.from, result0))
+
+//@ pure reqInRange(r) = r != nil && reqIsOrigin(r) && 1 <= r.Amount && r.Amount <= 140737488355328 && sessFrom <= reqOrigin(r) && reqOrigin(r) + r.Amount <= sessFrom + sessAmount
+//@ pure chunkOK(t, c) = len(c) >= 1 && sessFrom <= c[0].Height() && c[0].Height() + len(c) <= sessFrom + sessAmount && (forall k int :: 0 <= k && k < len(c) ==> validated(c[k]) && !c[k].IsZero()) && verifiedRun(t, c)
+
+//@ chaninv session.reqCh(r): reqInRange(r)
+//@ chaninv (*session).doRequest.headers(c): chunkOK(s.from, c)
+
+//@ func (*session).doRequest(s, ctx, stat, req, headers)
+//@   props C05, C18
+//@   requires reqInRange(req) && sessFrom + sessAmount <= MaxUint64 && !s.from.IsZero()
+//@   modifies $now, header.VerifyError.SoftFailure
+//@   ensures [C18] at-most-one-chunk: sent("(*session).doRequest.headers") <= old(sent("(*session).doRequest.headers")) + 1
+//@   ensures [C18] at-most-one-requeue: sent("session.reqCh") <= old(sent("session.reqCh")) + 1
